@@ -11,6 +11,8 @@ import FxVerif.Model.Util
   the executed claim (if this vote made an attestation observed), the claim stored for `ExecuteClaim` and the attestation
   table of the nonce under vote; `pow <oracle> <power|none>` / `total <t>`: power changes between votes (delegation,
   slashing, removal — environment); `run <nonce> <handlerFails>`: `ExecuteClaim`;
+* `lhash <claim line>`: the claim hash of the release before b7515bc; `iatt <nonce> <hash> <voters> <claim line>`: an open
+  attestation already stored under `hash` (left by an earlier release); `olast <oracle> <n>`: an oracle's last voted nonce;
 * `hbt <module> <store k:v,…|-> <bt claim line>`: the regenerated statement list of `AddBridgeTokenExecuted`, interpreted;
 * `hdep <tag> <field> <dep|indep>`: a dependence of the real handlers on a field must be listed in the regenerated view;
 * `akey <nonce> <hash hex>` / `pkey <nonce>`: the bytes of `GetAttestationKey` / `GetPendingExecuteClaimKey` from the regenerated
@@ -123,11 +125,28 @@ def opLine (d : DState) : List String → Option (DState × String)
       | .ok => "ok" | .logicCheck => "err:logic-check" | .nonContiguous => "err:non-contiguous" | .panic => "panic"
     let exec := if s'.executed.length > before then ((hashHex c.path).take 16).toString else "-"
     pure ({ d with st := s' }, s!"{kind} last={s'.lastObserved} h={s'.lastHeight} exec={exec} pend={pendOf s' d.focus} atts={attTable s' d.focus}")
+  | "lhash" :: claim => do
+    -- the claim hash the release before b7515bc computed (Model/C03.lean legacy paths): what an attestation that was open at
+    -- the upgrade is stored under
+    let (c, _, _) ← parseClaim claim
+    pure (d, hashHex c.legacyPath)
+  | "iatt" :: n :: h :: voters :: claim => do
+    -- an open attestation already in the store under hash `h` (filed by an earlier release / imported): recorded claim and
+    -- the oracles whose votes it holds
+    let (c, _, _) ← parseClaim claim
+    let n ← n.toNat?
+    let vs ← if voters == "-" then pure [] else (voters.splitOn ".").mapM (·.toNat?)
+    let a : Att String := { nonce := n, hash := h, claim := c, votes := vs.map (fun o => (o, c)), observed := false }
+    let s' := { d.st with atts := setAtt d.st.atts a }
+    pure ({ d with st := s' }, s!"ok atts={attTable s' n}")
+  | ["olast", o, n] => do
+    -- environment: the last event nonce oracle `o` has voted for
+    pure ({ d with st := stepWith [] [] (fun c => hashHex c.path) (fun _ _ => true) d.st (.setOracleLast (← o.toNat?) (some (← n.toNat?))) }, "ok")
   | ["pow", o, p] => do
     -- environment: the power `GetOracle(o).GetPower()` now has (`none`: the oracle is no longer found)
     let o ← o.toNat?
     let pw : Option Nat ← if p == "none" then pure none else (p.toNat?).map some
-    pure ({ d with st := stepWith [] (fun c => hashHex c.path) (fun _ _ => true) d.st (.setPower o pw) }, "ok")
+    pure ({ d with st := stepWith [] [] (fun c => hashHex c.path) (fun _ _ => true) d.st (.setPower o pw) }, "ok")
   | ["total", t] => do
     pure ({ d with st := { d.st with total := (← t.toNat?) } }, "ok")
   | "hbt" :: m :: pre :: claim => do
